@@ -127,6 +127,12 @@ func modeFor(prop string) (*histMode, error) {
 				return append(ps, hist.CheckLog(o)...)
 			},
 			roracle: func(r *hist.Run) []hist.Problem { return append(hist.CheckMinVV(r), hist.CheckLamportCausal(r)...) }, proto: true, smallSnap: true}, nil
+	case "C15":
+		return &histMode{flavors: []string{"object", "array", "arraymove", "text", "counter", "tree", "mixed"}, smallSnap: true, serverDoc: true,
+			gen: hist.GenConfig{MinClients: 2, MaxClients: 3, MinSteps: 8, MaxSteps: 30, Undo: true, Late: true, Inflight: true},
+			oracle: func(h *hist.History, o *hist.Outcome) []hist.Problem {
+				return append(append(baseOracle(h, o), hist.CheckConvergence(o)...), hist.CheckCloneRoot(o)...)
+			}}, nil
 	case "C08":
 		return &histMode{flavors: all,
 			gen: hist.GenConfig{MinClients: 1, MaxClients: 3, MinSteps: 6, MaxSteps: 30, FailUpd: true, Undo: true},
@@ -232,6 +238,25 @@ func runHist(cfg *config) error {
 			}
 		}
 		sig["undo_needed"] = undo
+		// is somebody else editing in a history where one client undoes/redoes?
+		undoers, editors := map[int]bool{}, map[int]bool{}
+		for _, st := range small.Steps {
+			switch st.Op {
+			case "Z", "Y":
+				undoers[st.C] = true
+			case "U":
+				editors[st.C] = true
+			}
+		}
+		concurrent := false
+		for u := range undoers {
+			for e := range editors {
+				if e != u {
+					concurrent = true
+				}
+			}
+		}
+		sig["concurrent_editor"] = concurrent
 		// does the failure need garbage collection at all?
 		h2 := *small
 		h2.Pin = true
